@@ -164,9 +164,30 @@ def handleTotal (args impl : List String) : Option String :=
     if implIsPanic impl then some s!"fail panic model={showPM m}"
     else if modelPanics then some s!"disagree model={showPM m}"
     else
-      match impl with
-      | "A" :: _ => some "ok parsed"
-      | "err" :: c :: _ => some s!"ok err-{c}"
+      match Nz.splitBars impl with
+      | [pr, "T" :: stages] =>
+        -- a parsed expression: printing, Debug, normalizing and printing the normal form return normally
+        let names := ["print", "debug", "normalize", "print-normal-form"]
+        match (names.zip stages).find? (fun p => p.2.startsWith "panic:") with
+        | some (nm, loc) =>
+          let agrees := match m with
+            | .ok e => (nm == "print" && Print.printPanics e) || (nm == "normalize" && (match OH.Model.Norm.normalizeM e with | .error _ => true | .ok _ => false))
+            | _ => false
+          some s!"fail panic-{nm} at={loc} model-agrees={if agrees then "yes" else "no"}"
+        | none =>
+          if showPM m != joinSp pr then some s!"disagree model={showPM m}"
+          else
+            match m with
+            | .ok e =>
+              if Print.printPanics e then some "disagree model=print-panics"
+              else (match OH.Model.Norm.normalizeM e with
+                    | .error _ => some "disagree model=normalize-panics"
+                    | .ok _ => some "ok parsed")
+            | _ => some "ok parsed"
+      | [pr] =>
+        match pr with
+        | "err" :: c :: _ => if showPM m != joinSp pr then some s!"disagree model={showPM m}" else some s!"ok err-{c}"
+        | _ => none
       | _ => none
 
 def handle (op : String) (args impl : List String) : Option String :=
